@@ -20,8 +20,8 @@ Conventions
 * `(double) k` for a small non-negative integer `k` is `ofNat k` (repeated `+ 1.0`, exact in
   doubles); the C++ cast `double → int` of `x * inv_cell_size` (truncation; `x ≥ 0` on the
   domain) is `floorUpTo n x`, a search for the largest `k ≤ n` with `(double) k ≤ x` — it
-  agrees with the cast for `0 ≤ x` except that values `≥ n+1` are clamped to `n` (both are
-  "outside, high");
+  agrees with the cast for `0 ≤ x < n+1`; larger values give `n` instead of the cast, which makes
+  no difference after the `std::min(index, n - 1)` of `get_{x,y,z}_index`;
 * `DBL_MAX` is the literal `dblMax`.
 -/
 namespace CMacVerif.RayMarch
@@ -156,7 +156,22 @@ def pinAxis (b : Block α) (inDir : Nat) (p : V3 α) (a : Ax) : α :=
 /-- `update_photon_position(input_direction, position)` -/
 def pinPos (b : Block α) (inDir : Nat) (p : V3 α) : V3 α := V3.of (pinAxis b inDir p)
 
+/-- `std::min(i, n - 1)` on `int_fast32_t` (`std::min(a, b)` = `(b < a) ? b : a`) -/
+def clampIdx (i m : Int) : Int := if m < i then m else i
+
+/-- `get_x_index` etc.; a computed index is clamped to the last cell
+(`std::min(static_cast<int_fast32_t>(x * _inv_cell_size), _number_of_cells - 1)`): a position
+exactly on the upper boundary of the box belongs to the last cell -/
 def startIdxAxis (b : Block α) (inDir : Nat) (p : V3 α) (a : Ax) : Int :=
+  match idxKind inDir a with
+  | 0 => clampIdx (floorUpTo (b.n.get a) (p.get a * b.inv.get a) : Nat) ((b.n.get a : Int) - 1)
+  | 1 => 0
+  | _ => (b.n.get a : Int) - 1
+
+/-- the index rule BEFORE the clamp was introduced (`return x * _inv_cell_size[0];`), kept to
+state what the old code did with a start on the upper block boundary (`Props/C02.lean`,
+`old_code_upper_boundary_index_outside`) -/
+def startIdxAxisOld (b : Block α) (inDir : Nat) (p : V3 α) (a : Ax) : Int :=
   match idxKind inDir a with
   | 0 => (floorUpTo (b.n.get a) (p.get a * b.inv.get a) : Nat)
   | 1 => 0
